@@ -28,6 +28,7 @@ DRIVER = "c03_ecdsa.c"
 RC_SETUP = 0x7fff0001
 
 OP_SIGN, OP_VERIFY, OP_VERIFY_PRIV, OP_VERIFY_BN, OP_KEYGEN, OP_RECOVER, OP_DH, OP_EXPORT, OP_IMPORT, OP_INFO = range(1, 11)
+OP_SIGN_BN, OP_KG_BN, OP_DH_BN = 11, 12, 13
 ORDERS = (("be", "big", 0), ("le", "little", 1))
 
 # ---------------------------------------------------------------------------
@@ -172,6 +173,25 @@ def case_export(ci, le, P, compress, has_y, cap_x, cap_y, pat=0x5a, arm=0):
 def case_import(ci, le, qx, qy=None, qsz=None, pat=0x5a, arm=0):
     return _hdr(OP_IMPORT, ci, le, pat, arm).blob(qx).u8(0 if qy is None else 1).blob(qy or b"") \
         .u32(len(qx) if qsz is None else qsz).done()
+
+
+def case_sign_bn(ci, d, Q, alias, steps, preload=None, pat=0x5a, arm=0):
+    """bn-level ecdsa_sign(); steps = [(e, rnd), ...] executed on the same output objects."""
+    w = _hdr(OP_SIGN_BN, ci, 0, pat, arm).blob(_be(d)).blob(_be(Q[0])).blob(_be(Q[1])).u8(alias).u8(1 if preload else 0)
+    w.blob(_be(preload[0]) if preload else b"").blob(_be(preload[1]) if preload else b"").u8(len(steps))
+    for e, k in steps:
+        w.blob(_be(e)).blob(_be(k))
+    return w.done()
+
+
+def case_kg_bn(ci, mode, dirty, stale, d, cof, d2, pat=0x5a, arm=0):
+    sx, sy = stale if stale else (0, 0)
+    return _hdr(OP_KG_BN, ci, 0, pat, arm).u8(mode).u8(dirty).blob(_be(sx)).blob(_be(sy)).blob(_be(d)).u8(cof).blob(_be(d2)).done()
+
+
+def case_dh_bn(ci, Q, cof, d, alias=0, inf=0, pat=0x5a, arm=0):
+    x, y = Q if Q is not None else (0, 0)
+    return _hdr(OP_DH_BN, ci, 0, pat, arm).blob(_be(x)).blob(_be(y)).u8(1 if (Q is None or inf) else 0).u8(cof).u8(alias).blob(_be(d)).done()
 
 
 class Obs:
@@ -749,6 +769,7 @@ def work_curve(job):
         # ---- failure honesty ----
         if oname == "be":
             honesty_natural(part, c, ci, vname, vm, exe, vrng)
+            bn_sign_sequences(part, c, ci, vname, vm, exe, vrng)
         if job["fault_variant"].get(oname) == vname:
             honesty_faults(part, c, ci, oname, order, le, vname, vm, exe, vrng, tier)
     return part
@@ -828,6 +849,78 @@ def honesty_natural(part, c, ci, vname, vm, exe, rng):
         elif want and not acc:
             _viol(part, "oracle:%s:rejects-valid:bn-level" % ent, vname, vm, cs, {"accept": True},
                   {"accept": False, "rc": ob.rc}, "curve %s: bn-level verifier rejected a valid tuple" % c.name)
+
+
+def bn_sign_sequences(part, c, ci, vname, vm, exe, rng):
+    """bn-level ecdsa_sign() the way a caller with its own objects uses it: sign_s / sign_r separate from or
+    aliased to rnd / hash ("sign_r - can point to hash", "sign_s - can point to rnd"), output objects fresh,
+    preloaded, or still holding the previous signature (two-step sequences).  Each successful step must
+    equal the reference signature and pass ecdsa_verify() and ecdsa_verify_priv_key().  Whether the caller's
+    rnd object is left untouched is not promised by the header and only counted."""
+    n = c.n
+    top = (1 << c.bits) - 1
+    d = rng.range(1, n - 1)
+    Q = ecdsa.mul_g(c, d)
+
+    def step(kind):
+        e = {"small": rng.below(n), "ge-n": n + rng.below(1 << 16), "zero": 0}[kind]
+        return (e, rng.range(1, n - 1))
+    prev = ecdsa.sign_e(c, rng.range(1, n - 1), d, rng.range(1, n - 1))
+    plans = [
+        ("alias-both", 3, None, [step("small"), step("small")]),
+        ("separate-fresh", 0, None, [step("small")]),
+        ("separate-reuse", 0, None, [step("small"), step("ge-n"), step("small")]),
+        ("separate-preloaded", 0, prev, [step("small")]),
+        ("s-alias-rnd", 1, prev, [step("small"), step("zero")]),
+        ("r-alias-hash", 2, None, [step("small"), step("small")]),
+        ("separate-rnd>=n", 0, (1, 1), [(rng.below(n), n + rng.below(min(n, top - n) or 1))]),
+    ]
+    cases = [case_sign_bn(ci, d, Q, al, steps, pre, pat=rng.below(256)) for (_, al, pre, steps) in plans]
+    res = run_judged(exe, vm, cases, part, lambda i: "ecdsa_sign")
+    for (name, al, pre, steps), o, cs in zip(plans, res, cases):
+        if isinstance(o, common.Crash):
+            _viol(part, "%s:ecdsa_sign:no-verdict" % o.kind, vname, vm, cs, "signature or error", repr(o),
+                  "bn-level sequence %s" % name, {"report": o.report[-3000:]})
+            continue
+        ob = Obs(o)
+        if ob.rc == RC_SETUP:
+            common.part_count(part, "bn_sign_setup_skipped")
+            continue
+        ns = ob.r.u8()
+        for i in range(ns):
+            e, k = steps[i]
+            rc = ob.r.i32()
+            r_, s_, k_after, _e_after = (int.from_bytes(ob.r.blob(), "big") for _ in range(4))
+            v1, v2 = ob.r.i32(), ob.r.i32()
+            part["evaluations"] += 1
+            common.part_count(part, "bn_sign_steps")
+            er = e % n
+            if c.algo == ecdsa.ALGO_GOST and er == 0:
+                er = 1
+            try:
+                want = ecdsa.sign_e(c, er, d, ecdsa.reduce_rnd(c, k))
+            except ecdsa.Invalid:
+                want = None
+            part["classes"].add(("bn-sign", c.algo, name, i, e >= n, k >= n, rc == 0))
+            if not (al & 1) and k_after != k:
+                common.part_count(part, "bn_sign_rnd_object_modified")
+            note = "curve %s bn-level ecdsa_sign sequence '%s' step %d/%d: e=%x d=%x rnd=%x" % (c.name, name, i + 1, ns, e, d, k)
+            if want is None:
+                if rc == 0:
+                    _viol(part, "oracle:ecdsa_sign:signs-with-invalid-input", vname, vm, cs, "error", {"rc": 0}, note)
+                continue
+            if rc != 0:
+                _viol(part, "oracle:ecdsa_sign:fails-on-valid-input:%s" % name, vname, vm, cs,
+                      {"r": hex(want[0]), "s": hex(want[1])}, {"rc": rc}, note)
+                continue
+            if (r_, s_) != want:
+                _viol(part, "oracle:ecdsa_sign:signature-differs-from-standard:%s" % name, vname, vm, cs,
+                      {"r": hex(want[0]), "s": hex(want[1])}, {"rc": 0, "r": hex(r_), "s": hex(s_), "verify": v1, "verify_priv_key": v2}, note)
+            elif v1 != 0 or v2 != 0:
+                _viol(part, "oracle:ecdsa_sign:own-signature-rejected:%s" % name, vname, vm, cs, {"verify": 0, "verify_priv_key": 0},
+                      {"verify": v1, "verify_priv_key": v2}, note)
+            else:
+                common.part_count(part, "bn_sign_ok")
 
 
 def _positions(N, count, rng, everything=False):
@@ -940,7 +1033,9 @@ def run(tier):
         "2*bytes,2*bytes+1,random}, nonces {0,1,n-1,n,max,random}; per signed tuple ~27 (thorough ~31) mutated "
         "verification tuples (bit flips of hash inside/beyond the truncation, of r and s, boundary r/s, n-s, swap, "
         "10 kinds of wrong/invalid public key in 4 layouts, forged signature for O) through the public-key and "
-        "the private-key verifier; bn-level verifiers on over-wide/invalid objects; failpoint enumeration. "
+        "the private-key verifier; bn-level verifiers on over-wide/invalid objects; bn-level ecdsa_sign sequences with "
+        "sign_s/sign_r separate from or aliased to rnd/hash and output objects fresh, preloaded or reused across "
+        "steps; failpoint enumeration. "
         "A class = (operation, algorithm, byte order, tuple or mutation kind, hash class vs n and field size, "
         "expected verdict, observed verdict) resp. (failpoint, entry, tuple class, function where it fired, outcome); "
         "a class is non-trivial because each names a distinct input region or internal failure site.")
